@@ -96,7 +96,7 @@ SPEC = TreeSpec(
         "inside a field (not on a field boundary of the reference offset map), counted once per distinct "
         "(class, encoding, cut). Additionally 16 (thorough: 200) classes with a bytes/records field, legacy versions first, "
         "are given a 68 KiB, a 1 MiB + 4 KiB and a 1.5 MiB payload and cut at ~240 selected positions each (first and last 48 "
-        "bytes, 64 evenly spaced, every multiple of 64 KiB and 1 MiB +-1 from the start of the encoding and of the payload)."
+        "bytes, 64 evenly spaced, every multiple of 64 KiB and 1 MiB +-1 from the start of the encoding and of the payload); the same classes also get a blob made of three real record batches back to back, cut at EVERY position."
     ),
     profile=MEDIUM,
     check=check,
@@ -186,19 +186,39 @@ def big_cuts(n: int, size: int) -> list[int]:
     return sorted(c for c in cuts if 0 <= c < n)
 
 
+def _real_batches() -> bytes:
+    """Three well-formed record batches back to back (the real-broker fixtures kept under corpus/C18)."""
+    from ..engine import CORPUS_DIR
+
+    parts = [p.read_bytes() for p in sorted((CORPUS_DIR / "C18").glob("*.bin"))][:3]
+    return b"".join(parts)
+
+
 def _big_worker(task):
     path, blob, size = task
     from .. import describe as D
 
     cd = D.describe(D.resolve(path))
     rep = Report(prop=ID, level=SPEC.level, rule=SPEC.rule)
-    tree = big_tree(cd, tuple(blob), size)
+    if size == 0:
+        # a record set made of real batches: every cut (a reader that understands batch framing must still report a cut)
+        payload = _real_batches()
+        tree = big_tree(cd, tuple(blob), 1)
+        node = tree
+        for name in blob[:-1]:
+            node = node[name][0] if isinstance(node[name], list) else node[name]
+        node[blob[-1]] = payload
+        size = len(payload)
+        all_cuts = True
+    else:
+        tree = big_tree(cd, tuple(blob), size)
+        all_cuts = False
     try:
         b = ref_encode(cd, tree)
     except Exception:
         return rep
     c = {"big_cuts": 0, "big_inputs": 1}
-    for k in big_cuts(len(b), size):
+    for k in (range(len(b)) if all_cuts else big_cuts(len(b), size)):
         src = ReadOnlySource(b[:k], max_reads=4096)
         c["big_cuts"] += 1
         try:
@@ -221,7 +241,7 @@ def run(ctx: Ctx) -> Report:
     rep = run_tree_property(ctx, __name__, SPEC)
     from ..engine import pool_map
 
-    tasks = [(cd.path, list(bp), size) for cd, bp in big_payload_classes(16 if ctx.quick else 200) for size in BIG_SIZES]
+    tasks = [(cd.path, list(bp), size) for cd, bp in big_payload_classes(16 if ctx.quick else 200) for size in BIG_SIZES + (0,)]
     for sub in pool_map(_big_worker, tasks):
         for f in sub.failures.values():
             rep.add_failure(f)
